@@ -5,6 +5,7 @@ package rig
 import (
 	"fmt"
 	"io"
+	"math/big"
 	"strconv"
 	"sync"
 	"sync/atomic"
@@ -192,4 +193,150 @@ func DuplicateContextTrial(nats *NatsServer) *DuplicateContextResult {
 		res.Bad = fmt.Sprintf("request A (op id %d) was in flight when a second call with its FContext was refused (%s); A's response was published afterwards and A, with a 120 s budget, has not returned: the refusal removed A's registration", op, res.SecondErr)
 	}
 	return res
+}
+
+// BeyondUint64Trial: a frame whose _opid is 2^64 + k (twenty digits, not a
+// uint64) is nobody's response.  The transport may discard it or treat it as a
+// protocol error and close; it must not complete request k with it.
+func BeyondUint64Trial(leg MuxLeg, n int) (bad string, inconclusive string) {
+	tr, err := leg.Open()
+	if err != nil {
+		return "", "open: " + err.Error()
+	}
+	defer leg.Close()
+	ctl := NewController()
+	type caller struct {
+		op   uint64
+		done chan struct{}
+		tok  string
+		err  error
+	}
+	cs := make([]*caller, n)
+	var owned []uint64
+	defer func() { ctl.Disown(owned...) }()
+	for i := range cs {
+		ctx := frugal.NewFContext("")
+		ctx.SetTimeout(400 * time.Millisecond)
+		c := &caller{op: OpidOf(ctx), done: make(chan struct{})}
+		cs[i] = c
+		ctl.Own(c.op)
+		owned = append(owned, c.op)
+		go func() {
+			defer close(c.done)
+			rt, err := tr.Request(ctx, wire.BuildFrame(wire.MapToPairs(ctx.RequestHeaders()), []byte("req")))
+			c.err = err
+			if err == nil && rt != nil {
+				body, _ := io.ReadAll(rt)
+				if _, used, perr := wire.DecodeHeaders(body); perr == nil {
+					c.tok = string(body[used:])
+				} else {
+					c.tok = "<unparseable>"
+				}
+			}
+		}()
+	}
+	for i, c := range cs {
+		if !ctl.Await(HookEvent{"request.registered", c.op}, 1, muxWatchdog) {
+			return "", fmt.Sprintf("caller %d did not register", i)
+		}
+	}
+	two64 := new(big.Int).Lsh(big.NewInt(1), 64)
+	for i, c := range cs {
+		op := new(big.Int).Add(two64, new(big.Int).SetUint64(c.op)).String()
+		leg.Inject(c.op, wire.BuildFrame([]wire.Pair{{Name: "_opid", Value: op}}, []byte(fmt.Sprintf("stray:c%d", i))))
+	}
+	for i, c := range cs {
+		select {
+		case <-c.done:
+		case <-time.After(20 * time.Second):
+			return "", fmt.Sprintf("caller %d did not return", i)
+		}
+		if c.err == nil {
+			return fmt.Sprintf("caller %d (op id %d) completed successfully with payload %q: the only frame sent carried the op id 2^64+%d, which is not a uint64 and nobody's op id", i, c.op, c.tok, c.op), ""
+		}
+	}
+	return "", ""
+}
+
+// RegistryBusyTrial: the client registry is busy (its lock is held, as by a
+// slow Register/Unregister of another request) when a request is issued and
+// while its response arrives; once the registry is free again the request must
+// complete with its own response.  A transport that puts the request on the
+// wire before it has registered it loses the response here: the reader, which
+// waited for the registry too, looks the op id up first and finds nothing.
+func RegistryBusyTrial(leg MuxLeg, seen <-chan uint64) (bad, inconclusive string, skipped bool) {
+	tr, err := leg.Open()
+	if err != nil {
+		return "", "open: " + err.Error(), false
+	}
+	defer leg.Close()
+	unlock := LockRegistry(tr)
+	if unlock == nil {
+		return "", "", true
+	}
+	released := false
+	defer func() {
+		if !released {
+			unlock()
+		}
+	}()
+	ctx := frugal.NewFContext("")
+	ctx.SetTimeout(120 * time.Second)
+	op := OpidOf(ctx)
+	type out struct {
+		tok string
+		err error
+	}
+	done := make(chan out, 1)
+	go func() {
+		rt, err := tr.Request(ctx, wire.BuildFrame(wire.MapToPairs(ctx.RequestHeaders()), []byte("req")))
+		if err != nil || rt == nil {
+			done <- out{"", err}
+			return
+		}
+		body, _ := io.ReadAll(rt)
+		_, used, perr := wire.DecodeHeaders(body)
+		if perr != nil {
+			done <- out{"", perr}
+			return
+		}
+		done <- out{string(body[used:]), nil}
+	}()
+	injected := false
+	select {
+	case got := <-seen: // the request went out although the registry was busy
+		if got == op {
+			leg.Inject(op, FrameFor(op, "resp:own"))
+			injected = true
+			time.Sleep(50 * time.Millisecond) // let the reader reach the registry
+		}
+	case <-time.After(150 * time.Millisecond):
+	}
+	unlock()
+	released = true
+	if !injected {
+		wd := time.After(20 * time.Second)
+		for got := false; !got; {
+			select {
+			case o := <-seen:
+				got = o == op
+			case <-wd:
+				return "", "request did not reach the wire after the registry was released", false
+			}
+		}
+		leg.Inject(op, FrameFor(op, "resp:own"))
+	}
+	select {
+	case o := <-done:
+		if o.err != nil || o.tok != "resp:own" {
+			return fmt.Sprintf("request (op id %d) issued while the registry was busy returned payload %q err=%v, its own response was %q", op, o.tok, o.err, "resp:own"), "", false
+		}
+	case <-time.After(20 * time.Second):
+		how := "after"
+		if injected {
+			how = "while the registry was still busy (the request had been put on the wire before it was registered), and"
+		}
+		return fmt.Sprintf("request (op id %d, 120 s budget) was issued while the client registry was busy; its response arrived %s the registry was released; the request has not returned: its response was lost", op, how), "", false
+	}
+	return "", "", false
 }
